@@ -100,7 +100,17 @@ def explainFalsePositive (src : String) (layout : Layout) (nodes : List Node) (g
     | none => "no division at this range"
   else if g.code == "duplicate_keys" then
     match g.secondary with
-    | [o] => s!"the keys of `{excerpt src layout o}` and `{excerpt src layout g.primary}` denote different values; the raw text between the delimiters is compared, whatever the quote kind"
+    | [o] =>
+      -- which kind of key: a quoted / long-bracket string (the recorded raw-text finding), or anything else (numbers, names)
+      let isStrKey := fun (sp : Span) =>
+        let t := (((excerpt src layout sp).toList.dropWhile (· == ' ')).drop 1).dropWhile (· == ' ')
+        match t with
+        | c :: _ => c == '"' || c == '\'' || c == '['
+        | [] => false
+      if isStrKey o && isStrKey g.primary then
+        s!"the keys of `{excerpt src layout o}` and `{excerpt src layout g.primary}` denote different values; the raw text between the delimiters is compared, whatever the quote kind"
+      else
+        s!"the keys of `{excerpt src layout o}` and `{excerpt src layout g.primary}` denote different values (they are not both string literals: no raw-text comparison explains this)"
     | _ => "no original declaration"
   else if g.code == "bad_string_escape" then
     match g.sub with
